@@ -535,7 +535,7 @@ func runC17(c *fw.Ctx) {
 		cres := analysis.CheckSource(ctext)
 		co, _ := real.RunCase(cpo.Result, control, real.Exact)
 		c.Eval()
-		if cres.GetErrorsCount() > 0 || !co.OK() {
+		if countErrors(cres.Diagnostics) > 0 || !co.OK() {
 			c.Count("control_not_clean_skipped", 1)
 			continue
 		}
@@ -614,7 +614,7 @@ func runC17(c *fw.Ctx) {
 			c.Violation("panic:"+o.Frame, "run panics: "+o.PanicVal, input())
 			return
 		}
-		errs, total := res.GetErrorsCount(), len(res.Diagnostics)
+		errs, total := countErrors(res.Diagnostics), len(res.Diagnostics)
 		c.Count("edits_checked", 1)
 		c.Count("edit_"+kind, 1)
 		silent := "flagged"
@@ -642,4 +642,15 @@ func runC17(c *fw.Ctx) {
 			c.Sample(map[string]any{"case": id, "input": input(), "diagnostics": diagSet(res.Diagnostics), "run": o.Summary()})
 		}
 	}
+}
+
+// countErrors counts the error-severity diagnostics (not through the library's own helper).
+func countErrors(ds []analysis.Diagnostic) int {
+	n := 0
+	for _, d := range ds {
+		if d.Kind.Severity() == analysis.ErrorSeverity {
+			n++
+		}
+	}
+	return n
 }
